@@ -95,7 +95,7 @@ theorem Spec.notifs_balance (m : Mode) : ∀ (tr : List SEv) (s s' : Spec), Spec
           split at hst
           · split at hst <;> cases hst
           · split at hst
-            · cases hst
+            · split at hst <;> cases hst
             · cases hst
               simp only [expectedNotifs, notifsOf, Obs.isNotif, List.map_nil] at ih ⊢
               rw [← rangeOf_eq_rangeNH]
